@@ -6,6 +6,7 @@ mod c27;
 mod c27_file;
 mod c28;
 mod fio;
+mod longlist;
 mod val;
 
 use vcore::{machinery_error, Ctx};
